@@ -32,3 +32,90 @@ Definition obs_msg (T:tables) (proj:N) (lbl:Z) (p:bytes) : obs :=
              (ser_str ident ++ ser_bool (ismsm_of T ident) ++ ab ++ ser_bool (o_unknown o), fl)
     | _ => ser_attrs (filter (fun kv => is_msm_attr (fst kv)) (public o))
     end) (construct T (Some p) lbl).
+
+(* ---- helpers driver ---- *)
+Definition ser_idx (r:idx_res) : bytes :=
+  match r with
+  | IdxInt n => x00 :: ser_Z (Z.of_N n)
+  | IdxTuple l => x01 :: ser_n 2 (N.of_nat (List.length l)) ++ flat_map (fun n => ser_Z (Z.of_N n)) l
+  | IdxUnmodelled => [x09]
+  end.
+Definition obs_att (T:tables) (name:bytes) : obs :=
+  let s := str_of_bytes name in
+  (ser_idx (att2idx s) ++ ser_str (att2name s) ++ fst (ser_outcome (fun d => (ser_str d, [])) (datadesc T s)), []).
+
+Fixpoint ser_rows (l:list (list (string*value))) : bytes * list float :=
+  match l with [] => ([], []) | r::t => let '(b1,f1) := ser_attrs r in let '(b2,f2) := ser_rows t in (b1 ++ b2, f1 ++ f2) end.
+Definition ser_msm (m:option msm_out) : bytes * list float :=
+  match m with
+  | None => ([x00], [])
+  | Some r => let '(b0,f0) := ser_attrs (m_meta r) in let '(b1,f1) := ser_rows (m_sats r) in let '(b2,f2) := ser_rows (m_cells r) in
+              (x01 :: b0 ++ ser_n 2 (N.of_nat (List.length (m_sats r))) ++ b1 ++ ser_n 2 (N.of_nat (List.length (m_cells r))) ++ b2, f0 ++ f1 ++ f2)
+  end.
+Fixpoint ser_vals (l:list value) : bytes * list float :=
+  match l with [] => ([], []) | v::t => let '(b1,f1) := ser_value v in let '(b2,f2) := ser_vals t in (b1 ++ b2, f1 ++ f2) end.
+Fixpoint ser_coeffs (l:list (string * list value)) : bytes * list float :=
+  match l with [] => ([], []) | (k,vs)::t => let '(b1,f1) := ser_vals vs in let '(b2,f2) := ser_coeffs t in
+     (ser_str k ++ ser_n 2 (N.of_nat (List.length vs)) ++ b1 ++ b2, f1 ++ f2) end.
+Fixpoint ser_layers (l:list layer_out) : bytes * list float :=
+  match l with [] => ([], []) | r::t => let '(b0,f0) := ser_value (l_height r) in let '(b1,f1) := ser_coeffs (l_coeffs r) in let '(b2,f2) := ser_layers t in
+     (b0 ++ ser_n 2 (N.of_nat (List.length (l_coeffs r))) ++ b1 ++ b2, f0 ++ f1 ++ f2) end.
+Definition ser_4076 (m:option (list layer_out)) : bytes * list float :=
+  match m with None => ([x00], []) | Some ls => let '(b,f) := ser_layers ls in (x01 :: ser_n 2 (N.of_nat (List.length ls)) ++ b, f) end.
+
+Definition obs_arrays (T:tables) (lbl:Z) (p:bytes) : obs :=
+  match construct T (Some p) lbl with
+  | Ok o => let '(b1,f1) := ser_outcome ser_msm (parse_msm T o) in let '(b2,f2) := ser_outcome ser_4076 (parse_4076_201 T o) in (x00 :: b1 ++ b2, f1 ++ f2)
+  | Lib e => ([tag_liberr e], []) | Foreign _ => ([x05], []) | Unmodelled _ => ([x09], [])
+  end.
+
+(* ---- reader driver ---- *)
+Definition mk_cfg (v q l:Z) (p:bool) : cfg := {| validate := v; quitonerror := q; labelmsm := l; parsed := p |}.
+Definition dirs_of (l:list Z) : list directive := map (fun z => if (z <? 0)%Z then Full else Short (Z.to_nat z)) l.
+Definition ser_parsed (T:tables) (m:option obj) : bytes :=
+  match m with
+  | None => [x00]
+  | Some o => x01 :: ser_str (match obj_identity o with Ok i => i | _ => "?"%string end) ++ ser_bytes (o_payload o)
+  end.
+Definition ser_result (T:tables) (hr:list liberr * rd_result obj) : bytes :=
+  let '(h, r) := hr in
+  ser_n 2 (N.of_nat (List.length h)) ++ map tag_liberr h ++
+  match r with
+  | RYield raw m => x00 :: ser_bytes raw ++ ser_parsed T m
+  | REnd => [x10]
+  | RRaise e => [x20; tag_liberr e]
+  | RForeign _ => [x05]
+  | RUnmodelled _ => [x09]
+  | ROutOfFuel => [x0a]
+  end.
+Definition ctor (T:tables) (p:bytes) (l:Z) : outcome obj := construct T (Some p) l.
+Definition obs_reader_file (T:tables) (v q l:Z) (p:bool) (k:nat) (data:bytes) (sch:list Z) : obs :=
+  let s0 := {| rest := data; sched := dirs_of sch |} in
+  let '(evs, s') := run_reads file_ops (ctor T) (t_nmea_hdr T) (t_ubx_hdr T) (t_valcksum T) (t_err_raise T) (t_err_log T)
+                      (mk_cfg v q l p) (S (List.length data)) k s0 in
+  (flat_map (ser_result T) evs ++ ser_n 3 (N.of_nat (List.length data - List.length (rest s'))), []).
+
+Definition evs_of (l:list (option blob)) : list recv_ev := map (fun o => match o with Some b => Data (unpack b) | None => Fail end) l.
+Definition obs_reader_sock (T:tables) (chunked:bool) (v q l:Z) (p:bool) (k:nat) (ev:list (option blob)) : obs :=
+  let e := evs_of ev in
+  let s0 := sock_init chunked (fun x => x) e in
+  let '(evs, s') := run_reads (sock_ops chunked (fun x => x)) (ctor T) (t_nmea_hdr T) (t_ubx_hdr T) (t_valcksum T) (t_err_raise T) (t_err_log T)
+                      (mk_cfg v q l p) (S (data_len e)) k s0 in
+  (flat_map (ser_result T) evs ++ ser_bytes (buf s') ++ ser_bool (unm s'), []).
+
+(* ---- sock / chunk drivers ---- *)
+Fixpoint sock_reads (chunked:bool) (dz:bytes -> bytes) (ops:list Z) (s:sock) : bytes :=
+  match ops with
+  | [] => ser_bytes (buf s) ++ ser_bool (unm s)
+  | n::r => let '(o, s') := (if (n <? 0)%Z then sock_readline chunked dz s else sock_read chunked dz (Z.to_nat n) s) in
+            ser_bytes o ++ sock_reads chunked dz r s'
+  end.
+(* dz oracle: association list recorded from the implementation's zlib, identity elsewhere *)
+Definition dz_of (tbl:list (bytes*bytes)) (c:bytes) : bytes :=
+  match find (fun kv => beqb (fst kv) c) tbl with Some kv => snd kv | None => c end.
+Definition obs_sock (chunked:bool) (tbl:list (blob*blob)) (ev:list (option blob)) (ops:list Z) : obs :=
+  let dz := dz_of (map (fun kv => (unpack (fst kv), unpack (snd kv))) tbl) in
+  (sock_reads chunked dz ops (sock_init chunked dz (evs_of ev)), []).
+Definition obs_dechunk (tbl:list (blob*blob)) (seg:bytes) : obs :=
+  let dz := dz_of (map (fun kv => (unpack (fst kv), unpack (snd kv))) tbl) in
+  (match dechunk dz seg with DOk c p => x00 :: ser_bytes c ++ ser_bytes p | DUnm => [x09] end, []).
